@@ -121,7 +121,7 @@ def select_matrix(steps=1, engine=0, bases=("leaf", "sel", "chain", "join")):
             # may hide a column the other side still shows - one-sided and mutual clashes of hidden columns - optionally
             # below a deduplication or selection; the two leaves hold different values under the same column names
             subsets = ((A,), (A, B), (C, A), (A, B, C))
-            wraps = (None, ("dedup",), ("sel", ("ge", R(A), ("lit", 1))))
+            wraps = (None, ("dedup",), ("sel", ("ge", R(A), ("lit", 1))), ("slice", 0, 0), ("slice", 1, 1), ("slice", 0, 2))
             for pl, pr in itertools.product(subsets, subsets):
                 for wl, wr in itertools.product(wraps, wraps):
                     lhs, rhs = ("proj", ("leaf", 0), pl), ("proj", ("leaf", 1), pr)
